@@ -87,6 +87,7 @@ func runC08(c *Ctx) {
 		c.startupReconciliation(reconSpec{fnNewB, "IsEqual"}, reconSpec{fnNewF, "IsEqual"})
 	})
 
+	c.rule("C08.O8", "a reorganisation interrupted by a crash can be resumed: the crash may leave the filter header store one block behind the block header store (its rollback step runs first); the resumed rollback then skips the filter step for exactly the blocks the filter store no longer has and performs it for the others - a test of the filter tip against the rollback target instead of against the block being removed cuts the filter store once too often, its tip names a block that is gone and the store cannot be opened again; "+filterRollbackFirstDoc, func() { c.filterRollbackFirst() })
 	c.rule("C08.V1", "whole records are cut off the real end of the file: truncateHeaders computes the new length as (current length) - numHeaders * (record size), where the current length is asked of the file in that call (Stat().Size() or Seek(0, io.SeekEnd)); a remembered length is accepted only if every function of the package that changes the file's length (Write / Truncate on it, os.Truncate) - or each of its callers - writes the remembered length again after doing so: a length recorded before the start-up trim of a torn tail stays too large by the fragment, every later rollback leaves that fragment of a removed header behind, and the append-only file then holds every later record at a shifted offset", func() {
 		fn := c.fn("(*headerfs.headerFile).truncateHeaders")
 		truncFile := c.hfs("headerFile", "truncateFile")
